@@ -15,6 +15,18 @@ const MASK96: u128 = (1u128 << 96) - 1;
 
 /// Returns the clause that failed, if any.  `deep` adds the wire round trip through bytes and
 /// (IPv6) the 96 single-bit-different transaction ids.
+/// "the address that was put in": IP address and port.  The zone and flow label of an IPv6 socket
+/// address are local to the host and not part of the RFC 8489 encoding; whether they come back as
+/// given or as zero is left open, but they never change the address, the port or the wire value.
+fn same_addr(back: SocketAddr, a: SocketAddr) -> bool {
+    let plain = |x: SocketAddr| matches!(x, SocketAddr::V6(v) if v.scope_id() != 0 || v.flowinfo() != 0);
+    if plain(a) {
+        back.ip() == a.ip() && back.port() == a.port()
+    } else {
+        back == a
+    }
+}
+
 fn xma_check(a: SocketAddr, t: u128, deep: bool) -> Option<(&'static str, String, String)> {
     if deep {
         // every operation is preceded, on the same thread, by the same operation under related
@@ -27,7 +39,7 @@ fn xma_check(a: SocketAddr, t: u128, deep: bool) -> Option<(&'static str, String
             let z = XorMappedAddress::new(other, t2.into());
             let _ = z.addr(t2.into());
             let x = XorMappedAddress::new(a, t.into());
-            if x.addr(t.into()) != a {
+            if !same_addr(x.addr(t.into()), a) {
                 return Some(("addr-roundtrip-after-related-id", format!("{a}"), format!("{} after an operation under id {t2:#x}", x.addr(t.into()))));
             }
             let want_wire = attrs::encode(Kind::XorMappedAddress, &Val::Addr(attrs::xor_addr(a, t)));
@@ -41,7 +53,7 @@ fn xma_check(a: SocketAddr, t: u128, deep: bool) -> Option<(&'static str, String
     }
     let x = XorMappedAddress::new(a, t.into());
     let back = x.addr(t.into());
-    if back != a {
+    if !same_addr(back, a) {
         return Some(("addr-roundtrip", format!("{a}"), format!("{back}")));
     }
     let want_wire = attrs::encode(Kind::XorMappedAddress, &Val::Addr(attrs::xor_addr(a, t)));
@@ -64,7 +76,7 @@ fn xma_check(a: SocketAddr, t: u128, deep: bool) -> Option<(&'static str, String
     };
     match XorMappedAddress::from_raw(&parsed) {
         Ok(y) => {
-            if y.addr(t.into()) != a {
+            if !same_addr(y.addr(t.into()), a) {
                 return Some(("wire-trip", format!("{a}"), format!("{}", y.addr(t.into()))));
             }
             if y != x {
@@ -76,7 +88,7 @@ fn xma_check(a: SocketAddr, t: u128, deep: bool) -> Option<(&'static str, String
     // decode of the reference encoding
     let r = RawAttribute::new(AttributeType::new(0x0020), &want_wire);
     match XorMappedAddress::from_raw(&r) {
-        Ok(y) if y.addr(t.into()) == a => {}
+        Ok(y) if same_addr(y.addr(t.into()), a) => {}
         other => return Some(("decode-reference-wire", format!("{a}"), format!("{:?}", other.map(|y| y.addr(t.into()))))),
     }
     if a.is_ipv6() {
@@ -99,9 +111,17 @@ fn mk_case(a: SocketAddr, t: u128) -> Case {
             d.extend_from_slice(&ip.octets());
         }
         IpAddr::V6(ip) => {
-            d.push(6);
+            let (flow, scope) = match a {
+                SocketAddr::V6(v6) => (v6.flowinfo(), v6.scope_id()),
+                _ => (0, 0),
+            };
+            d.push(if flow != 0 || scope != 0 { 7 } else { 6 });
             d.extend_from_slice(&a.port().to_be_bytes());
             d.extend_from_slice(&ip.octets());
+            if flow != 0 || scope != 0 {
+                d.extend_from_slice(&flow.to_be_bytes());
+                d.extend_from_slice(&scope.to_be_bytes());
+            }
         }
     }
     d.extend_from_slice(&(t & MASK96).to_be_bytes()[4..16]);
@@ -116,11 +136,18 @@ fn parse_case(c: &Case) -> (SocketAddr, u128) {
     } else {
         let mut o = [0u8; 16];
         o.copy_from_slice(&d[3..19]);
-        (IpAddr::V6(Ipv6Addr::from(o)), &d[19..])
+        (IpAddr::V6(Ipv6Addr::from(o)), if d[0] == 7 { &d[27..] } else { &d[19..] })
     };
     let mut t: u128 = 0;
     for b in rest {
         t = (t << 8) | *b as u128;
+    }
+    if d[0] == 7 {
+        if let IpAddr::V6(v6) = ip {
+            let flow = u32::from_be_bytes([d[19], d[20], d[21], d[22]]);
+            let scope = u32::from_be_bytes([d[23], d[24], d[25], d[26]]);
+            return (SocketAddr::V6(std::net::SocketAddrV6::new(v6, port, flow, scope)), t);
+        }
     }
     (SocketAddr::new(ip, port), t)
 }
@@ -232,6 +259,18 @@ pub fn run(ctx: &Ctx) -> Report {
             }
         }
     }
+    // socket addresses with a zone (scope id) or a flow label, as recv_from hands them to a server
+    // for link-local peers, and plain addresses of the forms a zone could be folded into
+    for txt in ["fe80::1", "fe80::abcd:1234:5678:9abc", "ff02::1", "2001:db8::1", "::1", "fe80:2::1", "fe80:ffff::1", "fe80:0:1::1", "fe80::2:0:0:1", "fec0::1"] {
+        let ip: Ipv6Addr = txt.parse().unwrap();
+        for (flow, scope) in [(0u32, 1u32), (0, 2), (0, 0xFFFF), (0, 0x1_0000), (0, u32::MAX), (5, 0), (0xF_FFFF, 3), (0, 0)] {
+            for port in [0u16, 40000] {
+                for t in tids {
+                    cases.push(mk_case(SocketAddr::V6(std::net::SocketAddrV6::new(ip, port, flow, scope)), t));
+                }
+            }
+        }
+    }
     // lane pairs with all 65536 value pairs: IPv4 all 6 pairs; IPv6 adjacent lanes and lanes 8 apart
     // (carries, sign extension and word-boundary slips need two lanes to show)
     for i in 0..4usize {
@@ -273,7 +312,7 @@ pub fn run(ctx: &Ctx) -> Report {
         .reduce(Acc::default, |a, b| a.merge(b));
     acc.nontrivial = n_cases;
     let mut bounds = json!({"ports": 65536, "lane_walk_backgrounds": 5, "cases": n_cases});
-    let mut rule = "all 65536 ports x 4 addresses x 3 tids; every byte lane of IPv4/IPv6 address and of the transaction id takes all 256 values against 5 backgrounds (zeros, ones, equal to the XOR key, complement, seeded); boundary tids; 17 special-purpose addresses (unspecified, loopback, IPv4-mapped / -compatible, NAT64, link-local, multicast, 6to4, ...) x 5 ports x 4 tids, and the addresses whose obfuscated (XOR-ed) form is one of those; IPv4: all 6 lane pairs x all 65536 value pairs; IPv6: adjacent lanes and lanes 8 apart x 256 x (every 5th value + boundary set; all 256 in thorough); IPv6: all 96 single-bit-different tids; every judged operation is preceded on the same thread by operations under five related transaction ids".to_string();
+    let mut rule = "all 65536 ports x 4 addresses x 3 tids; every byte lane of IPv4/IPv6 address and of the transaction id takes all 256 values against 5 backgrounds (zeros, ones, equal to the XOR key, complement, seeded); boundary tids; 17 special-purpose addresses (unspecified, loopback, IPv4-mapped / -compatible, NAT64, link-local, multicast, 6to4, ...) x 5 ports x 4 tids, and the addresses whose obfuscated (XOR-ed) form is one of those; IPv6 socket addresses with scope ids and flow labels (the IP address, port and wire value must not depend on them); IPv4: all 6 lane pairs x all 65536 value pairs; IPv6: adjacent lanes and lanes 8 apart x 256 x (every 5th value + boundary set; all 256 in thorough); IPv6: all 96 single-bit-different tids; every judged operation is preceded on the same thread by operations under five related transaction ids".to_string();
     if ctx.tier == Tier::Thorough {
         // all 2^32 IPv4 addresses (fast path: address round trip + wire encoding)
         let fails = AtomicU64::new(0);
